@@ -13,6 +13,7 @@ var zzEntries = map[string]func(){
 	"ZZ_C13_boson":  ZZ_C13_boson,
 	"ZZ_C13_lepton": ZZ_C13_lepton,
 	"ZZ_CONN":       ZZ_CONN,
+	"ZZ_C11_start":  ZZ_C11_start,
 }
 
 type zzCam struct{ x, y, fps int }
